@@ -2346,7 +2346,9 @@ def _self_recursive_new(P, g, baseline, depth=6):
         h = P.fns.get(k)
         if h is None or d > depth:
             continue
-        for blk in h.blocks:
+        # (closures written in h — handed to fold/map/.. — are part of h's body for this purpose)
+        bodies = [h] + [c_ for c_ in P.fn_list if c_.kind == 'closure' and c_.root == h.key]
+        for blk in [b_ for x_ in bodies for b_ in x_.blocks]:
             t = blk['t']
             if t['k'] != 'call':
                 continue
